@@ -60,6 +60,7 @@ type Case struct {
 	Pre     string `json:"pre,omitempty"`
 	ScalarF bool   `json:"scalarf,omitempty"`
 	Op      string `json:"op,omitempty"`
+	AddDefs bool   `json:"adddefs,omitempty"` // prepend the defining reductions to Q[1] (replayed native cases)
 }
 
 // canonical, replayable text of a case (also the KNOWN_FINDINGS key)
@@ -367,6 +368,11 @@ func runOracle(c *Ctx) {
 	g := newGen(c.Rng)
 	cases := sentinelCases()
 	cases = append(cases, fixedCases()...)
+	search := false
+	for _, a := range c.Args {
+		search = search || a == "search"
+	}
+	cases = append(cases, tailCases(c.Seed, search || c.Tier != "quick")...)
 	n := c.N
 	for i := 0; i < n; i++ {
 		cases = append(cases, g.randomCase())
